@@ -232,37 +232,90 @@ def subset(check, prog):
                                                           NONE), True),),
                   'D2-no-subset', 'make_subset_data(pixels=None)',
                   'returns the data itself when no subset is requested', loc)
-    for o in rets:
-        v = o.value[1][0] if o.value[0] == 'tuple' else o.value
-        cm = [x for x in subterms(v) if x[0] == 'call' and x[1] == MD + 'copy_metadata']
-        ok = bool(cm)
-        if ok:
-            c0 = cm[0]
-            sel = c0[2][1]
-            ok = c0[2][0] == sym('data') and sel[0] == 'call' and \
-                sel[1] == ('attr', ('call', MD + 'flat', (sym('data'),), ()), 'isel') and \
+    # What is returned, for an image (grid) and for data that are already a flat
+    # subset (what every strategy with `npixels` hands over when the user's data
+    # are a subset).  copy_metadata re-indexes a flat result like a flat donor
+    # (its branch for finalize()): applied here it blows the selection back up
+    # to the donor's pixels, NaN-filled -- so on the flat path the selection must
+    # not go through it; isel keeps name and attrs by itself.
+    data = sym('data')
+    FL = intern(('call', MD + 'flat', (data,), ()))
+    for kind in ('grid', 'flat subset'):
+        def decide_k(t, kind=kind):
+            if t[0] == 'call' and t[1] == 'hasattr' and len(t[2]) == 2 and \
+                    t[2][0] == data and t[2][1] == ('const', 'flat'):
+                return kind != 'grid'
+            if t[0] == 'cmp' and t[1] in ('in', 'not in') and \
+                    t[2] == ('const', 'original_dims'):
+                # the record of the image's axes exists on a subset, not on a grid
+                return (kind != 'grid') == (t[1] == 'in')
+            if t == pix_none:
+                return False
+            return None
+        itk = Interp(prog, max_depth=1, decide=decide_k,
+                     opaque=[MD + 'copy_metadata', MD + 'flat'])
+        resk = itk.analyze(q)
+        for o in resk.returns:
+            v = o.value[1][0] if o.value[0] == 'tuple' else o.value
+            stores = []
+            t = v
+            while t[0] == 'upd':
+                stores.append(t)
+                t = t[1]
+            # strip attribute bookkeeping: x{.attrs := ...}, x.attrs{#k := v}
+            core = t
+            wrapped = False
+            if core[0] == 'call' and core[1] == MD + 'copy_metadata' and \
+                    len(core[2]) >= 2 and core[2][0] == data:
+                wrapped = True
+                core = core[2][1]
+            sel = core
+            ok = sel[0] == 'call' and sel[1] == ('attr', FL, 'isel') and \
                 dict(sel[3]).get('flat') is not None and bool(draw_terms) and \
                 is_draw(dict(sel[3])['flat'])
-        check.require(ok, 'D2-selection', 'make_subset_data result',
-                      'copy_metadata(data, flat(data).isel(flat=selection), ...): '
-                      'values, coordinates and metadata of the selected pixels', loc,
-                      fail_detail='returns %s' % show(v)[:200])
-        od = [x for x in subterms(v) if x[0] == 'upd' and x[3] == ('const', 'original_dims')]
-        okd = bool(od)
-        if okd:
-            d = od[0][4]
-            okd = d[0] == 'comp' and d[1] == 'dict' and \
-                d[3][0][1] == ('attr', sym('data'), 'dims')
-            if okd:
-                e = d[3][0][0]
-                okd = d[2] == ('tuple', (e, ('attr', ('idx', sym('data'), e), 'values')))
-        check.require(okd, 'D2-original-axes', 'make_subset_data original_dims',
-                      "attrs['original_dims'] = {dim: data[dim].values for every dim}",
-                      loc)
-        if o.value[0] == 'tuple':
-            check.require(o.value[1][1] == dict(sel[3])['flat'] if ok else False,
-                          'D2-selection', 'make_subset_data return_selection',
-                          'the selection returned is the one applied', loc)
+            detail = 'returns %s' % show(v)[:200]
+            if ok and wrapped and kind != 'grid':
+                ok = False
+                detail = 'for data that are already flat the selection is passed ' \
+                    'through copy_metadata(data, ...), which re-indexes it like ' \
+                    '`data`: make_subset_data(subset_of_20, pixels=5) comes back with ' \
+                    '20 entries, 15 of them NaN'
+            check.require(ok, 'D2-selection', 'make_subset_data result [%s]' % kind,
+                          'the selected pixels of flat(data), with the metadata of '
+                          'data: values, coordinates and metadata of exactly the '
+                          'selected pixels', loc, fail_detail=detail)
+            od = [x for x in subterms(v) if x[0] == 'upd' and
+                  x[3] == ('const', 'original_dims')]
+            if kind == 'grid':
+                okd = len(od) >= 1
+                if okd:
+                    d = od[0][4]
+                    okd = d[0] == 'comp' and d[1] == 'dict' and \
+                        d[3][0][1] == ('attr', data, 'dims')
+                    if okd:
+                        e = d[3][0][0]
+                        okd = d[2] == ('tuple', (e, ('attr', ('idx', data, e), 'values')))
+                check.require(okd, 'D2-original-axes',
+                              'make_subset_data original_dims [grid]',
+                              "attrs['original_dims'] = {dim: data[dim].values for "
+                              "every dim}", loc)
+            else:
+                keep = all(x[4] in (intern(('idx', ('attr', data, 'attrs'),
+                                            ('const', 'original_dims'))),
+                                    intern(('attr', data, 'original_dims')))
+                           for x in od)
+                check.require(keep, 'D2-original-axes',
+                              'make_subset_data original_dims [flat subset]',
+                              'a subset of a subset keeps the record of the image\'s '
+                              'axes it was given', loc,
+                              fail_detail="attrs['original_dims'] is overwritten with "
+                              '%s: the x / y / z axes remembered by the first subset '
+                              'are lost' % (show(od[0][4])[:100] if od else ''))
+            if o.value[0] == 'tuple':
+                check.require(ok and o.value[1][1] == dict(sel[3])['flat'],
+                              'D2-selection',
+                              'make_subset_data return_selection [%s]' % kind,
+                              'the selection returned is the one applied', loc)
     # FitResult.forward rebuilds the full grid on the remembered axes
     q = 'holopy.inference.result.FitResult.forward'
     fd = prog.func(q)
